@@ -174,7 +174,10 @@ def g7_nonempty(site, tests):
                 if atom[1] == "Ne":
                     return outcome is True and r_[1] == 0
         return False
-    for tb, sb in tests.blocks_where(pred):
+    cands = list(tests.blocks_where(pred))
+    # `match v.len() { 1 => v.pop().unwrap(), .. }`
+    cands += tests.int_blocks(lambda e: e[0] == "call" and e[1].rsplit("::", 1)[1] == "len" and e[2] and e[2][0] == V, lambda v: v >= 1)
+    for tb, sb in cands:
         if edge_dominates(f, tb, sb, site.block):
             # no mutation of V between: V is a local container; look for calls on it
             bad = False
